@@ -471,6 +471,21 @@ func boundaries() []boundary {
 			return ws
 		}, L > 40000, true})
 	}
+	// the LAST integer of the stream at every width: one long word a x^L and a later word b q x^t that joins the chain
+	// t nodes before its end, so that the last record written is a node whose only link names a node far down the chain
+	// (index below 128, 128..255, 256..65535, 65536 and more); and the same with the long word last in the order
+	for _, L := range []int{100, 140, 200, 270, 400, 66000} {
+		for _, t := range []int{1, 11} {
+			L, t := L, t
+			bs = append(bs, boundary{fmt.Sprintf("chain-of-%d-nodes-and-a-later-word-that-joins-it-%d-nodes-before-its-end", L+1, t), func() [][]byte {
+				return [][]byte{append([]byte{'a'}, bytes.Repeat([]byte{'x'}, L)...), append([]byte{'b', 'q'}, bytes.Repeat([]byte{'x'}, t)...)}
+			}, false, true})
+		}
+		L := L
+		bs = append(bs, boundary{fmt.Sprintf("chain-of-%d-nodes-after-an-earlier-word-that-ends-like-it", L+1), func() [][]byte {
+			return [][]byte{append([]byte{'B', 'q'}, bytes.Repeat([]byte{'x'}, 7)...), append([]byte{'a'}, bytes.Repeat([]byte{'x'}, L)...)}
+		}, false, true})
+	}
 	// the same word counts with two levels of 256 children (GobEncode walks every path and takes seconds here: thorough)
 	bs = append(bs, boundary{"all-two-byte-words(65536 words)", allTwoByteWords, true, true})
 	// word counts 126..129 and 254..257 with small automata: k single letters below a prefix is covered by the fans; here k words a^i b
